@@ -1,5 +1,5 @@
 CONSTANTS
-  MaxLen = 11
+  MaxLen = 10
   Lenient = TRUE
   Dev = {"tag_mod_65536"}
 INIT Init
